@@ -18,9 +18,9 @@ def absmap(v):
 
 
 def families(tier, rng, h):
-    fams = [[0, 1, 2], [2, 3, 4], [3, 4, 5], [7, 8, 9], [253, 254, 255], [3, 4, 255], [0, 128, 255], [4, 8, 12],
-            [251, 252, 253], [247, 248, 249]]
+    fams = [[0, 1, 2], [2, 3, 4], [3, 4, 5], [7, 8, 9], [253, 254, 255], [3, 4, 255]]
     if tier == "thorough":
+        fams += [[0, 128, 255], [4, 8, 12], [251, 252, 253], [247, 248, 249]]
         fams += [[1, 2, 3], [5, 6, 7], [6, 7, 8], [11, 12, 13], [248, 252, 255], [15, 16, 17], [126, 127, 128],
                  [0, 4, 8], [3, 7, 11], [4, 5, 255], [100, 101, 102], [252, 253, 254]]
         for _ in range(12):
@@ -66,12 +66,39 @@ def run(c):
     inpath = os.path.join(c.work, "smt_in.json")
     json.dump(inp, open(inpath, "w"))
     outpath = os.path.join(c.work, "smt_out.json")
+    tracepath = os.path.join(c.work, "smt_trace.ndjson")
     rc, output = vlib.go_test("./pkg/trie/", "^TestVerifSmt$", env={"VERIF_IN": inpath, "VERIF_OUT": outpath,
-                              "VERIF_SEED": c.seed, "VERIF_TIER": c.tier}, timeout=3000)
+                              "VERIF_TRACE": tracepath, "VERIF_SEED": c.seed, "VERIF_TIER": c.tier}, timeout=3000)
     r = c.absorb_go(outpath, output)
     if rc != 0 and not r.get("violations"):
         raise vlib.Infra("harness failed:\n" + output[-3000:])
     c.exhaustive = True
     c.extra["exhaustive_note"] = ("exhaustive over the abstract model: 4 keys x 2 values, all batches of <=3 keys (%d transitions), "
                                   "each on %d key families; random walks and the large-batch driver are sampled" % (len(T), len(inp["families"])))
-    c.traces_validated = len(walks) * len(inp["families"])
+    # 3. direction B: the recorded walks (what the real trie returned) validated by TLC against SmtTrace.tla
+    if not r.get("violations"):
+        ok, matched, total, tres = vlib.validate_trace(SPEC_DIR, "SmtTrace", "SmtTrace.cfg", c.work, tracepath, timeout=1500)
+        c.add_tlc(tres, "trace validation of recorded walks (SmtTrace)")
+        if not ok:
+            lines = [l for l in open(tracepath) if l.strip()]
+            c.violation({"kind": "trace-rejected"}, {"event_index": matched, "event": lines[matched] if matched < len(lines) else None,
+                                                     "context": lines[max(0, matched - 3):matched]},
+                        "SmtTrace rejects the recorded execution at event %d of %d: %s" % (matched, total, lines[matched][:300] if matched < len(lines) else ""))
+        else:
+            c.traces_validated = len(walks) * len(inp["families"])
+            # binding self-test: a trace with one altered root must be rejected
+            bad = os.path.join(c.work, "smt_trace_bad.ndjson")
+            lines = [l for l in open(tracepath) if l.strip()]
+            idx = [i for i, l in enumerate(lines) if '"Batch"' in l]
+            i = idx[rng.randrange(len(idx))]
+            e = json.loads(lines[i]); e["root"] = "corrupted"
+            # re-using this id for different contents later must be refused: give the next batch the same id
+            j = next((k for k in idx if k > i and json.loads(lines[k])["reads"] != e["reads"]), None)
+            if j is not None:
+                e2 = json.loads(lines[j]); e2["root"] = "corrupted"
+                lines[i] = json.dumps(e) + "\n"; lines[j] = json.dumps(e2) + "\n"
+                open(bad, "w").writelines(lines)
+                ok2, m2, t2, _ = vlib.validate_trace(SPEC_DIR, "SmtTrace", "SmtTrace.cfg", c.work, bad, timeout=1500)
+                if ok2:
+                    raise vlib.Infra("binding self-test failed: corrupted trace accepted")
+                c.notes.append("self-test: corrupted trace rejected at event %d" % m2)
